@@ -66,16 +66,18 @@ Proof.
   cbn [snd] in *. eapply quiet_trans; eassumption.
 Qed.
 
-Lemma quiet_hdr_read_evlrs c rh s : c_seekable c = false -> quiet s (snd (hdr_read_evlrs c rh s)).
+Lemma quiet_hdr_read_evlrs c rh s : c_seekable c = false \/ c_has_seekable c = false -> quiet s (snd (hdr_read_evlrs c rh s)).
 Proof.
   intros Hc. unfold hdr_read_evlrs.
   destruct (h_minor rh >=? 4); [|apply quiet_refl].
   destruct (h_nev rh >? 0); [|apply quiet_refl].
+  destruct (c_has_seekable c); cbn [negb]; [|apply quiet_refl].
+  destruct Hc as [Hc|Hc]; [|discriminate].
   unfold s_seekable. rewrite Hc. cbn [snd].
   split; [reflexivity|]. exists [OSeekable; OSeekable]. cbn [st_log]. rewrite <- app_assoc. now split.
 Qed.
 
-Lemma quiet_open_reader c e s : c_seekable c = false -> quiet s (snd (open_reader c e s)).
+Lemma quiet_open_reader c e s : c_seekable c = false \/ c_has_seekable c = false -> quiet s (snd (open_reader c e s)).
 Proof.
   intros Hc. unfold open_reader. pose proof (quiet_prefetch s) as Q1. destruct (prefetch s) as [p s1]. cbn [snd] in Q1.
   destruct p as [data|er]; [|exact Q1].
@@ -110,18 +112,20 @@ Proof.
   eapply quiet_trans; eassumption.
 Qed.
 
-Lemma quiet_finish_evlrs c rh s : c_seekable c = false -> quiet s (snd (finish_evlrs c rh s)).
+Lemma quiet_finish_evlrs c rh s : c_seekable c = false \/ c_has_seekable c = false -> quiet s (snd (finish_evlrs c rh s)).
 Proof.
   intros Hc. unfold finish_evlrs.
   destruct ((h_minor rh >=? 4) && (h_nev rh >? 0) && is_none (rh_evlrs rh)).
-  - unfold s_seekable at 1. rewrite Hc.
+  - destruct (c_has_seekable c); cbn [negb]; [|apply quiet_refl].
+    destruct Hc as [Hc|Hc]; [|discriminate].
+    unfold s_seekable at 1. rewrite Hc.
     match goal with |- context [sread_vlrs ?n ?s1] => pose proof (quiet_sread_vlrs n s1) as Q; destruct (sread_vlrs n s1) as [r s2] end.
     cbn [snd] in *. eapply quiet_trans; [|exact Q]. split; [reflexivity|]. exists [OSeekable]. now split.
   - destruct ((h_minor rh >=? 4) && is_none (rh_evlrs rh)); apply quiet_refl.
 Qed.
 
 (* a source that says it is not seekable is never asked to seek or tell, whatever its bytes *)
-Theorem no_seek_when_not_seekable : forall c e chunk src, c_seekable c = false ->
+Theorem no_seek_when_not_seekable : forall c e chunk src, c_seekable c = false \/ c_has_seekable c = false ->
   no_seek_tell (snd (read_via c e chunk src)) = true.
 Proof.
   intros c e chunk src Hc. unfold read_via.
@@ -708,16 +712,17 @@ Lemma avail_seek p s : avail (s_seek p s) = skipn (Z.to_nat p) (st_bytes s).
 Proof. reflexivity. Qed.
 
 (* LasHeader.read_evlrs on a seekable stream: the EVLRs found by seeking, position restored *)
-Lemma hdr_read_evlrs_seekable c rh f s : c_seekable c = true -> st_bytes s = f -> bytes_ok f = true ->
+Lemma hdr_read_evlrs_seekable c rh f s : c_seekable c = true -> c_has_seekable c = true -> st_bytes s = f -> bytes_ok f = true ->
   0 <= st_pos s -> 0 <= h_evstart rh ->
   match evlrs_of f rh with
   | Ok ev => exists s', hdr_read_evlrs c rh s = (Ok (with_evlrs rh ev), s') /\ st_bytes s' = f /\ st_pos s' = st_pos s
   | Err e => exists s', hdr_read_evlrs c rh s = (Err e, s') /\ st_bytes s' = f
   end.
 Proof.
-  intros Hc Hb Hok Hp Hst. unfold evlrs_of, hdr_read_evlrs.
+  intros Hc Hhs Hb Hok Hp Hst. unfold evlrs_of, hdr_read_evlrs.
   destruct (h_minor rh >=? 4); [|exists s; repeat split; assumption].
   destruct (h_nev rh >? 0); [|exists s; repeat split; assumption].
+  rewrite Hhs. cbn [negb].
   unfold s_seekable. rewrite Hc. unfold s_tell.
   set (s3 := s_seek (h_evstart rh) _).
   destruct (sread_vlrs_spec (Z.to_nat (h_nev rh)) s3 Hst ltac:(unfold s3; cbn [s_seek st_bytes]; rewrite Hb; exact Hok)) as [V1 V2].
@@ -744,36 +749,54 @@ Qed.
 (* ------------------------------------------------------------------------------------ *)
 (* F. opening, finishing, and the whole read                                             *)
 (* ------------------------------------------------------------------------------------ *)
-Lemma open_reader_spec c e f rh : laid_out f rh ->
+Lemma open_reader_exact c e f rh : laid_out f rh -> can_answer c rh ->
   exists s1, st_bytes s1 = f /\
    ((exists rh1, open_reader c e (mkSt f 0 []) = (Ok rh1, s1) /\ st_pos s1 = rh_offset rh
-        /\ (rh1 = rh \/ exists ev, evlrs_of f rh = Ok ev /\ rh1 = with_evlrs rh ev))
-    \/ (exists er, open_reader c e (mkSt f 0 []) = (Err er, s1) /\ evlrs_of f rh = Err er)).
+        /\ (if loads_at_open c e rh then exists ev, evlrs_of f rh = Ok ev /\ rh1 = with_evlrs rh ev else rh1 = rh))
+    \/ (exists er, open_reader c e (mkSt f 0 []) = (Err er, s1) /\ evlrs_of f rh = Err er /\ loads_at_open c e rh = true)).
 Proof.
-  intros (Hd & Hok & Hcomp & Hps & Hpp).
+  intros (Hd & Hok & Hcomp & Hps & Hpp) Hans.
   destruct (dec_header_offset _ _ _ Hd) as [_ Hoff]. destruct (dec_header_pre _ _ _ Hd) as [Hl _].
   assert (rh_offset rh <= len f) as Hle.
   { unfold points_present in Hpp. nia. }
   destruct (prefetch_ok f false rh Hd Hle) as (s1 & P1 & P2 & P3).
   unfold open_reader. rewrite P1, (dec_header_prefetched f Hl), Hd, Hcomp.
-  destruct e; [|exists s1; split; [exact P2|]; left; exists rh; repeat split; auto].
+  unfold loads_at_open.
+  destruct e; cbn [andb]; [|exists s1; split; [exact P2|]; left; exists rh; repeat split; auto].
   assert (0 <= h_evstart rh) as Hst by (apply (header_int_nonneg f false); auto).
-  destruct (c_seekable c) eqn:Hc.
-  - pose proof (hdr_read_evlrs_seekable c rh f s1 Hc P2 Hok ltac:(lia) Hst) as Hs.
-    destruct (evlrs_of f rh) as [ev|er].
-    + destruct Hs as (s' & E & B & Ps). exists s'. split; [exact B|]. left. exists (with_evlrs rh ev).
-      split; [exact E|]. split; [lia|]. right. exists ev. split; reflexivity.
-    + destruct Hs as (s' & E & B). exists s'. split; [exact B|]. right. exists er. split; [exact E|reflexivity].
-  - destruct (dec_header_false_evlrs _ _ Hd) as [_ Hwn].
+  destruct (dec_header_false_evlrs _ _ Hd) as [_ Hwn].
+  destruct (needs_evlrs rh) eqn:Hn; unfold needs_evlrs in Hn.
+  - assert (c_has_seekable c = true) as Hhs by (destruct Hans as [H|H]; [exact H|unfold needs_evlrs in H; congruence]).
+    cbn [negb]. rewrite orb_false_r.
+    destruct (c_seekable c) eqn:Hc.
+    + pose proof (hdr_read_evlrs_seekable c rh f s1 Hc Hhs P2 Hok ltac:(lia) Hst) as Hs.
+      destruct (evlrs_of f rh) as [ev|er].
+      * destruct Hs as (s' & E & B & Ps). exists s'. split; [exact B|]. left. exists (with_evlrs rh ev).
+        split; [exact E|]. split; [lia|]. exists ev. split; reflexivity.
+      * destruct Hs as (s' & E & B). exists s'. split; [exact B|]. right. exists er. repeat split; [exact E].
+    + unfold hdr_read_evlrs. apply andb_prop in Hn. destruct Hn as [H4 Hne]. rewrite H4, Hne, Hhs. cbn [negb].
+      unfold s_seekable. rewrite Hc. eexists. split; [|left; exists rh; split; [rewrite Hwn; reflexivity|]]; cbn [st_bytes st_pos]; auto.
+  - cbn [negb]. rewrite orb_true_r.
     unfold hdr_read_evlrs, evlrs_of.
     destruct (h_minor rh >=? 4).
-    + destruct (h_nev rh >? 0).
-      * unfold s_seekable. rewrite Hc. eexists. split; [|left; exists rh; split; [rewrite Hwn; reflexivity|]]; cbn [st_bytes st_pos]; auto.
-      * exists s1. split; [exact P2|]. left. eexists. split; [reflexivity|]. split; [exact P3|]. right. eexists. split; reflexivity.
-    + exists s1. split; [exact P2|]. left. eexists. split; [reflexivity|]. split; [exact P3|]. right. eexists. split; reflexivity.
+    + destruct (h_nev rh >? 0); [discriminate|].
+      exists s1. split; [exact P2|]. left. eexists. split; [reflexivity|]. split; [exact P3|]. eexists. split; reflexivity.
+    + exists s1. split; [exact P2|]. left. eexists. split; [reflexivity|]. split; [exact P3|]. eexists. split; reflexivity.
 Qed.
 
-Lemma finish_evlrs_spec c f rh rh1 s : laid_out f rh -> (c_seekable c = true \/ evlrs_adjacent rh) ->
+Lemma open_reader_spec c e f rh : laid_out f rh -> can_answer c rh ->
+  exists s1, st_bytes s1 = f /\
+   ((exists rh1, open_reader c e (mkSt f 0 []) = (Ok rh1, s1) /\ st_pos s1 = rh_offset rh
+        /\ (rh1 = rh \/ exists ev, evlrs_of f rh = Ok ev /\ rh1 = with_evlrs rh ev))
+    \/ (exists er, open_reader c e (mkSt f 0 []) = (Err er, s1) /\ evlrs_of f rh = Err er)).
+Proof.
+  intros Hlo Hans. destruct (open_reader_exact c e f rh Hlo Hans) as (s1 & B & [(rh1 & E & P & H)|(er & E & H & _)]).
+  - exists s1. split; [exact B|]. left. exists rh1. split; [exact E|]. split; [exact P|].
+    destruct (loads_at_open c e rh); [right; exact H|left; exact H].
+  - exists s1. split; [exact B|]. right. exists er. split; assumption.
+Qed.
+
+Lemma finish_evlrs_spec c f rh rh1 s : laid_out f rh -> (c_seekable c = true \/ evlrs_adjacent rh) -> can_answer c rh ->
   st_bytes s = f -> 0 <= st_pos s ->
   avail s = skipn (Z.to_nat (rh_offset rh + Z.max 0 (h_count rh) * rh_psize rh)) f ->
   (rh1 = rh \/ exists ev, evlrs_of f rh = Ok ev /\ rh1 = with_evlrs rh ev) ->
@@ -782,15 +805,18 @@ Lemma finish_evlrs_spec c f rh rh1 s : laid_out f rh -> (c_seekable c = true \/ 
   | Err e => exists s', finish_evlrs c rh1 s = (Err e, s')
   end.
 Proof.
-  intros (Hd & Hok & Hcomp & Hps & Hpp) Hcase Hb Hp Ha [->|(ev & Hev & ->)].
+  intros (Hd & Hok & Hcomp & Hps & Hpp) Hcase Hans Hb Hp Ha [->|(ev & Hev & ->)].
   - destruct (dec_header_false_evlrs _ _ Hd) as [Hnone Hwn].
     assert (0 <= h_evstart rh) as Hst by (apply (header_int_nonneg f false); auto).
     unfold finish_evlrs. rewrite Hnone. cbn [is_none]. rewrite !andb_true_r.
     destruct (h_minor rh >=? 4) eqn:E4.
     + destruct (h_nev rh >? 0) eqn:En; cbn [andb].
-      * unfold s_seekable. destruct (c_seekable c) eqn:Hc.
+      * assert (c_has_seekable c = true) as Hhs
+          by (destruct Hans as [H|H]; [exact H|unfold needs_evlrs in H; rewrite E4, En in H; discriminate]).
+        rewrite Hhs. cbn [negb].
+        unfold s_seekable. destruct (c_seekable c) eqn:Hc.
         -- match goal with |- context [hdr_read_evlrs c rh ?s1] =>
-             pose proof (hdr_read_evlrs_seekable c rh f s1 Hc Hb Hok Hp Hst) as Hs end.
+             pose proof (hdr_read_evlrs_seekable c rh f s1 Hc Hhs Hb Hok Hp Hst) as Hs end.
            destruct (evlrs_of f rh) as [ev|er].
            ++ destruct Hs as (s' & E & _). exists s'. exact E.
            ++ destruct Hs as (s' & E & _). exists s'. exact E.
@@ -829,18 +855,22 @@ Proof.
     + exact Hsk.
 Qed.
 
-(* whatever the capabilities, the EVLR timing and the chunking: what is read is what read_file reads *)
-Theorem read_via_spec : forall c e chunk f rh, laid_out f rh -> (c_seekable c = true \/ evlrs_adjacent rh) ->
-  fst (read_via c e chunk f) = read_file f.
+(* once the file is open: all the records are read (whole or by chunks), and the source is left right after the last
+   point for the EVLR part of read() *)
+Lemma read_via_points c e chunk f rh rh1 s1 R tail : laid_out f rh ->
+  Forall (fun r => length r = Z.to_nat (rh_psize rh)) R -> len R = Z.max 0 (h_count rh) ->
+  skipn (Z.to_nat (rh_offset rh)) f = concat R ++ tail ->
+  tail = skipn (Z.to_nat (rh_offset rh + Z.max 0 (h_count rh) * rh_psize rh)) f ->
+  open_reader c e (mkSt f 0 []) = (Ok rh1, s1) -> st_bytes s1 = f -> st_pos s1 = rh_offset rh ->
+  (rh1 = rh \/ exists ev, evlrs_of f rh = Ok ev /\ rh1 = with_evlrs rh ev) ->
+  exists s3, st_bytes s3 = f /\ 0 <= st_pos s3
+    /\ avail s3 = skipn (Z.to_nat (rh_offset rh + Z.max 0 (h_count rh) * rh_psize rh)) f
+    /\ fst (read_via c e chunk f) = match fst (finish_evlrs c rh1 s3) with Ok rh' => Ok (mkLF rh' R) | Err er => Err er end.
 Proof.
-  intros c e chunk f rh Hlo Hcase.
-  destruct (laid_out_decomp f rh Hlo) as (R & tail & HF & HR & Hsk & Htail).
-  rewrite (read_file_spec f rh R tail Hlo HF HR Hsk).
+  intros Hlo HF HR Hsk Htail E1 B1 P1 Hrh1.
   pose proof Hlo as (Hd & Hok & Hcomp & Hps & Hpp).
   destruct (dec_header_offset _ _ _ Hd) as [_ Hoff].
-  unfold read_via.
-  destruct (open_reader_spec c e f rh Hlo) as (s1 & B1 & [(rh1 & E1 & P1 & Hrh1)|(er & E1 & Hev)]);
-    rewrite E1; [|rewrite Hev; reflexivity].
+  unfold read_via. rewrite E1.
   assert (rh_fields rh1 = rh_fields rh) as Hfields by (destruct Hrh1 as [->|(ev & _ & ->)]; reflexivity).
   assert (rh_psize rh1 = rh_psize rh) as Hps1 by (destruct Hrh1 as [->|(ev & _ & ->)]; reflexivity).
   assert (h_count rh1 = h_count rh) as Hc1 by (unfold h_count; now rewrite Hfields).
@@ -860,30 +890,90 @@ Proof.
   assert (X ++ Y = R) as HXY.
   { rewrite HX at 1. f_equal. rewrite HY. unfold len. rewrite Nat2Z.id, skipn_all, app_nil_r. reflexivity. }
   destruct Hinv2 as (B3 & P3 & A3).
-  assert (avail s3 = skipn (Z.to_nat (rh_offset rh + Z.max 0 (h_count rh) * rh_psize rh)) f) as Ha3.
-  { rewrite A3. unfold len. rewrite Nat2Z.id, skipn_all. cbn [concat app]. exact Htail. }
-  pose proof (finish_evlrs_spec c f rh rh1 s3 Hlo Hcase B3 P3 Ha3 Hrh1) as Hfin.
-  destruct (evlrs_of f rh) as [ev|er].
-  - destruct Hfin as (s4 & E4). rewrite E4. cbn [fst]. now rewrite HXY.
-  - destruct Hfin as (s4 & E4). rewrite E4. reflexivity.
+  exists s3. split; [exact B3|]. split; [exact P3|]. split.
+  - rewrite A3. unfold len. rewrite Nat2Z.id, skipn_all. cbn [concat app]. exact Htail.
+  - destruct (finish_evlrs c rh1 s3) as [[rh'|er] s4]; cbn [fst]; [now rewrite HXY|reflexivity].
+Qed.
+
+(* whatever the capabilities, the EVLR timing and the chunking: what is read is what read_file reads *)
+Theorem read_via_spec : forall c e chunk f rh, laid_out f rh -> (c_seekable c = true \/ evlrs_adjacent rh) -> can_answer c rh ->
+  fst (read_via c e chunk f) = read_file f.
+Proof.
+  intros c e chunk f rh Hlo Hcase Hans.
+  destruct (laid_out_decomp f rh Hlo) as (R & tail & HF & HR & Hsk & Htail).
+  rewrite (read_file_spec f rh R tail Hlo HF HR Hsk).
+  destruct (open_reader_spec c e f rh Hlo Hans) as (s1 & B1 & [(rh1 & E1 & P1 & Hrh1)|(er & E1 & Hev)]).
+  - destruct (read_via_points c e chunk f rh rh1 s1 R tail Hlo HF HR Hsk Htail E1 B1 P1 Hrh1) as (s3 & B3 & P3 & Ha3 & ->).
+    pose proof (finish_evlrs_spec c f rh rh1 s3 Hlo Hcase Hans B3 P3 Ha3 Hrh1) as Hfin.
+    destruct (evlrs_of f rh) as [ev|er]; destruct Hfin as (s4 & E4); rewrite E4; reflexivity.
+  - unfold read_via. rewrite E1, Hev. reflexivity.
 Qed.
 Print Assumptions read_via_spec.
 
+(* a source that does not even say whether it can seek (it offers read() and nothing else) cannot be used for a file
+   with EVLRs: the library has to ask, at opening or in read(); the outcome is the AttributeError, by every route *)
+Theorem bare_source_needs_seekable : forall c e chunk f rh, laid_out f rh -> c_has_seekable c = false -> needs_evlrs rh = true ->
+  fst (read_via c e chunk f) = Err EOther.
+Proof.
+  intros c e chunk f rh Hlo Hhs Hn.
+  destruct (laid_out_decomp f rh Hlo) as (R & tail & HF & HR & Hsk & Htail).
+  pose proof Hlo as (Hd & Hok & Hcomp & Hps & Hpp).
+  destruct (dec_header_pre _ _ _ Hd) as [Hl _].
+  assert (rh_offset rh <= len f) as Hle by (unfold points_present in Hpp; nia).
+  destruct (prefetch_ok f false rh Hd Hle) as (s1 & P1 & P2 & P3).
+  pose proof Hn as Hn'. unfold needs_evlrs in Hn'. apply andb_prop in Hn'. destruct Hn' as [H4 Hne].
+  destruct e.
+  - unfold read_via, open_reader. rewrite P1, (dec_header_prefetched f Hl), Hd, Hcomp.
+    unfold hdr_read_evlrs. rewrite H4, Hne, Hhs. reflexivity.
+  - assert (open_reader c false (mkSt f 0 []) = (Ok rh, s1)) as E1
+      by (unfold open_reader; rewrite P1, (dec_header_prefetched f Hl), Hd, Hcomp; reflexivity).
+    destruct (read_via_points c false chunk f rh rh s1 R tail Hlo HF HR Hsk Htail E1 P2 P3 (or_introl eq_refl)) as (s3 & _ & _ & _ & ->).
+    destruct (dec_header_false_evlrs _ _ Hd) as [Hnone _].
+    unfold finish_evlrs. rewrite H4, Hne, Hnone, Hhs. reflexivity.
+Qed.
+Print Assumptions bare_source_needs_seekable.
+
+(* the header the reader shows right after laspy.open, before anything is read: the file's, with the EVLRs loaded exactly
+   when that was asked for and the source can seek (or there is none to load), left for read() (None) otherwise *)
+Theorem open_stage : forall f rh c e, laid_out f rh -> can_answer c rh ->
+  fst (open_via c e f) = if loads_at_open c e rh
+                         then match evlrs_of f rh with Ok ev => Ok (with_evlrs rh ev) | Err er => Err er end
+                         else Ok rh.
+Proof.
+  intros f rh c e Hlo Hans. unfold open_via.
+  destruct (open_reader_exact c e f rh Hlo Hans) as (s1 & B & [(rh1 & E & P & H)|(er & E & H & L)]); rewrite E; cbn [fst].
+  - destruct (loads_at_open c e rh); [destruct H as (ev & -> & ->); reflexivity|now rewrite H].
+  - now rewrite L, H.
+Qed.
+Print Assumptions open_stage.
+
+Theorem open_stage_independent : forall f rh c c' e, laid_out f rh -> can_answer c rh -> can_answer c' rh ->
+  (needs_evlrs rh = false \/ c_seekable c = c_seekable c') ->
+  fst (open_via c e f) = fst (open_via c' e f).
+Proof.
+  intros f rh c c' e Hlo Ha Ha' H. rewrite (open_stage f rh c e Hlo Ha), (open_stage f rh c' e Hlo Ha').
+  assert (loads_at_open c e rh = loads_at_open c' e rh) as ->; [|reflexivity].
+  unfold loads_at_open. destruct H as [->| ->]; [cbn [negb]; now rewrite !orb_true_r|reflexivity].
+Qed.
+Print Assumptions open_stage_independent.
+
 (* the result does not depend on the access path *)
 Theorem access_path_independent : forall f rh c c' e e' k k', laid_out f rh -> evlrs_adjacent rh ->
+  can_answer c rh -> can_answer c' rh ->
   fst (read_via c e k f) = fst (read_via c' e' k' f).
 Proof.
-  intros f rh c c' e e' k k' Hlo Hadj.
-  rewrite (read_via_spec c e k f rh Hlo (or_intror Hadj)), (read_via_spec c' e' k' f rh Hlo (or_intror Hadj)). reflexivity.
+  intros f rh c c' e e' k k' Hlo Hadj Ha Ha'.
+  rewrite (read_via_spec c e k f rh Hlo (or_intror Hadj) Ha), (read_via_spec c' e' k' f rh Hlo (or_intror Hadj) Ha'). reflexivity.
 Qed.
 Print Assumptions access_path_independent.
 
 (* a source that can seek finds the EVLRs wherever they are (a gap after the last point is fine) *)
 Theorem seekable_any_layout : forall f rh c c' e e' k k', laid_out f rh -> c_seekable c = true -> c_seekable c' = true ->
+  can_answer c rh -> can_answer c' rh ->
   fst (read_via c e k f) = fst (read_via c' e' k' f) /\ fst (read_via c e k f) = read_file f.
 Proof.
-  intros f rh c c' e e' k k' Hlo Hc Hc'.
-  rewrite (read_via_spec c e k f rh Hlo (or_introl Hc)), (read_via_spec c' e' k' f rh Hlo (or_introl Hc')). split; reflexivity.
+  intros f rh c c' e e' k k' Hlo Hc Hc' Ha Ha'.
+  rewrite (read_via_spec c e k f rh Hlo (or_introl Hc) Ha), (read_via_spec c' e' k' f rh Hlo (or_introl Hc') Ha'). split; reflexivity.
 Qed.
 Print Assumptions seekable_any_layout.
 
@@ -912,9 +1002,10 @@ Print Assumptions read_mmap_spec.
 Lemma adjacent_in_file f rh : laid_out f rh -> evlrs_adjacent rh -> h_minor rh >= 4 -> h_nev rh > 0 -> h_evstart rh <= len f.
 Proof. intros (_ & _ & _ & _ & Hpp) Hadj H4 Hn. rewrite (Hadj H4 Hn). exact Hpp. Qed.
 
-Theorem mmap_same_as_streams : forall f rh c e k, laid_out f rh -> evlrs_adjacent rh -> read_mmap f = fst (read_via c e k f).
+Theorem mmap_same_as_streams : forall f rh c e k, laid_out f rh -> evlrs_adjacent rh -> can_answer c rh ->
+  read_mmap f = fst (read_via c e k f).
 Proof.
-  intros f rh c e k Hlo Hadj. rewrite (read_via_spec c e k f rh Hlo (or_intror Hadj)).
+  intros f rh c e k Hlo Hadj Ha. rewrite (read_via_spec c e k f rh Hlo (or_intror Hadj) Ha).
   apply (read_mmap_spec f rh Hlo). now apply adjacent_in_file.
 Qed.
 Print Assumptions mmap_same_as_streams.
@@ -1211,10 +1302,10 @@ Qed.
 Print Assumptions written_files_laid_out.
 
 (* files without points: nothing but the header and the EVLRs, through every path *)
-Theorem zero_points_read : forall f rh c e k, laid_out f rh -> evlrs_adjacent rh -> h_count rh <= 0 ->
+Theorem zero_points_read : forall f rh c e k, laid_out f rh -> evlrs_adjacent rh -> can_answer c rh -> h_count rh <= 0 ->
   fst (read_via c e k f) = match evlrs_of f rh with Ok ev => Ok (mkLF (with_evlrs rh ev) []) | Err er => Err er end.
 Proof.
-  intros f rh c e k Hlo Hadj H0. rewrite (read_via_spec c e k f rh Hlo (or_intror Hadj)).
+  intros f rh c e k Hlo Hadj Ha H0. rewrite (read_via_spec c e k f rh Hlo (or_intror Hadj) Ha).
   apply (read_file_spec f rh [] (skipn (Z.to_nat (rh_offset rh)) f) Hlo); [constructor|unfold len; cbn; lia|reflexivity].
 Qed.
 Print Assumptions zero_points_read.
